@@ -209,6 +209,17 @@ def run(ctx):
             ctx.ob("R-FS", "C11.5", f_, "the checkpoint target (resume_file) is not set from the name of the file a sampler was resumed from (which may be the `.old` backup)", not bad_, f"`{src(s_)[:70]}`" + (": after a resume through the `.old` fallback every later checkpoint goes to F.old / F.old.old, names the reader never tries" if bad_ else ""), node=s_)
     ctx.require(n_rf >= 1, "no store to resume_file found (configure_output expected)")
     ctx.floor("C11.5", 2)
+
+    # ---- C11.6 a weights loader is handed a path, never None --------------------------------------------------------
+    # the restore-the-backup logic of FlowProposal.resume catches the exceptions a torn file raises (RuntimeError, OSError,
+    # EOFError, UnpicklingError); torch.load(None) raises AttributeError, which nobody catches, so a fallback that can load
+    # `self.weights_file` while it is still None (a FlowModel rebuilt on resume) leaves a recoverable run unresumable
+    from ..rules import nonnull as _nn
+
+    _hits = _nn.scan(prog)
+    for f_, c_, ok_, why_ in _hits:
+        ctx.ob("R-NONNULL", "C11.6", f_, "the file handed to a weights loader cannot be None (interprocedural: guards, callers' arguments, defaulting idiom, attributes that start as None)", ok_, why_, node=c_)
+    ctx.floor("C11.6", 5)
     ctx.assumptions += [
         "rename within one directory is atomic and a completed close is durable (process death, not power loss)",
         "loading an absent file raises FileNotFoundError, a partially written one raises EOFError / UnpicklingError / RuntimeError (confirmed once on the pinned torch), a complete one succeeds",
